@@ -345,9 +345,14 @@ impl<D: DataMut> ReaderFrom for VecZnx<D> {
         let new_max_size: usize = reader.read_u64::<LittleEndian>()? as usize;
         let len: usize = reader.read_u64::<LittleEndian>()? as usize;
 
-        // Validate metadata consistency: n * cols * size * sizeof(i64) must match data length.
-        let expected_len: usize = new_n * new_cols * new_size * size_of::<i64>();
-        if expected_len != len {
+        // Validate metadata consistency: n * cols * size * sizeof(i64) must match data length
+        // (computed without wrapping: a product that overflows usize can never be a valid length).
+        let expected_len: usize = new_n
+            .checked_mul(new_cols)
+            .and_then(|x| x.checked_mul(new_size))
+            .and_then(|x| x.checked_mul(size_of::<i64>()))
+            .unwrap_or(usize::MAX);
+        if expected_len != len || new_max_size < new_size {
             return Err(std::io::Error::new(
                 std::io::ErrorKind::InvalidData,
                 format!(
@@ -369,7 +374,13 @@ impl<D: DataMut> ReaderFrom for VecZnx<D> {
         self.n = new_n;
         self.cols = new_cols;
         self.size = new_size;
-        self.max_size = new_max_size;
+        // The capacity announced by the writer is only meaningful up to what this buffer can back.
+        let buf_max_size: usize = match new_n.checked_mul(new_cols).and_then(|x| x.checked_mul(size_of::<i64>())) {
+            Some(0) => new_max_size,
+            Some(limb_bytes) => self.data.as_ref().len() / limb_bytes,
+            None => 0,
+        };
+        self.max_size = new_max_size.min(buf_max_size);
         Ok(())
     }
 }
